@@ -178,6 +178,7 @@ func (e *Exclusive) call(c exclusiveConfig) <-chan *ExclusiveOutcome {
 		item = e.work[c.key]
 		e.mutex.Unlock()
 
+		verifHook("excl.call.fetched")
 		// lock item then the root to check if item is still valid
 		item.mutex.Lock()
 
@@ -249,6 +250,7 @@ func (e *Exclusive) call(c exclusiveConfig) <-chan *ExclusiveOutcome {
 		// the item is now running
 		item.running = true
 
+		verifHook("excl.run.claimed")
 		// before we remove item from the work map, handle any specified wait, unlocking while we are waiting
 		// so that other calls may register themselves on the item
 		if item.wait > 0 {
@@ -274,6 +276,7 @@ func (e *Exclusive) call(c exclusiveConfig) <-chan *ExclusiveOutcome {
 		// release the mutex while we do the work
 		item.mutex.Unlock()
 
+		verifHook("excl.run.replaced")
 		// call the work function, guaranteeing resolve, and blocking until work is complete
 		{
 			var (
@@ -301,6 +304,7 @@ func (e *Exclusive) call(c exclusiveConfig) <-chan *ExclusiveOutcome {
 			resolve(nil, errResolveNotCalled)
 		}
 
+		verifHook("excl.run.worked")
 		// note this is the same mutex
 		// the reason why we don't just do this as part of resolve is to allow the work func to apply limiting
 		// (setting nextItem.running to false is what actually triggers the next job, if any)
